@@ -377,6 +377,7 @@ ADV = ["{{y}}", "{{?y}}", "{{y|upper}}", "{{y|d e}}", "{{b|zz}}", "{{>t1}}", "{{
        "{{x}}", "{{m1}}", "{{n1|length}}", "{{x|trim}}", "{{?m2}}", "{{m2|gone}}", "{{#each ys}}", "{{#if flag}}"]
 ADV_DEFAULTS = ["{{y", "{{?y", "{{>t1", "{", "{{", "x{{y|upper", "{{#if a", "{{m1", "{{.", "{{y|lower"]
 RESERVED = {"template", "self", "sequence"}
+MAX_OUTPUT = 1500
 
 
 class Gen:
@@ -756,11 +757,24 @@ class C12(Check):
         out = []
         for i in range(n):
             g = Gen(rng, adv=(i >= n // 2))
+            keep = W([["T", "plain text"]], [], phase="adv" if i >= n // 2 else "free")
             for _try in range(20):
                 c = g.case()
-                if (len(pr(c["main"])) <= 150 and all(len(pr(t)) <= 150 for _n, t in c["templates"])):
-                    break
-            out.append(c)
+                if not (len(pr(c["main"])) <= 150 and all(len(pr(t)) <= 150 for _n, t in c["templates"])):
+                    continue
+                # leaks can blow the output up exponentially (a value that re-introduces an include
+                # or itself); keep what Coq has to evaluate small
+                try:
+                    txt = run_real(c)["text"]
+                except Exception:
+                    txt = None
+                if txt is not None and len(txt) > MAX_OUTPUT:
+                    self.oversized = getattr(self, "oversized", 0) + 1
+                    continue
+                keep = c
+                break
+            out.append(keep)
+        self.extra_cov["generated_cases_dropped_for_output_size"] = getattr(self, "oversized", 0)
         return out
 
     def corpus_cases(self):
